@@ -219,13 +219,15 @@ theorem processBunch_w (hQF : ∀ b, Q b → Fits ch lo hi b) (c : Conn) (x : Ch
   · rename_i hold
     split
     · split
-      · rename_i q hq
-        refine ⟨setChan_w _ _ _ h ⟨hw.low, hw.part, hw.high, ?_⟩, setChan_adds _ _ _ _⟩
-        intro y hy
-        rcases enqueue_mem' b x.inRec q hq y hy with rfl | hy
-        · exact ⟨rfl, hb⟩
-        · exact hw.queue y hy
       · exact ⟨h.of_chans rfl, Adds.emit _ _ (hf _)⟩
+      · split
+        · rename_i q hq
+          refine ⟨setChan_w _ _ _ h ⟨hw.low, hw.part, hw.high, ?_⟩, setChan_adds _ _ _ _⟩
+          intro y hy
+          rcases enqueue_mem' b x.inRec q hq y hy with rfl | hy
+          · exact ⟨rfl, hb⟩
+          · exact hw.queue y hy
+        · exact ⟨h.of_chans rfl, Adds.emit _ _ (hf _)⟩
     · rename_i hnext
       refine receivedNextBunch_w c b h (hQF b hb) ?_
       intro x' hx' hrel
